@@ -277,6 +277,135 @@ func runC09(r *Run) error {
 			break
 		}
 	}
+	gated := 2
+	if r.Tier == "thorough" {
+		gated = 8
+	}
+	for gi := 0; gi < gated; gi++ {
+		if err := c09GatedAnnounce(r, gi); err != nil {
+			return err
+		}
+	}
+	return nil
+}
+
+// c09GatedAnnounce: the announcer of a write on database A is held inside its pubsub call
+// (a slow Peers()) while database B of the same instance is written many times; when A's
+// announcer goes on, what it publishes on A's topic must still be A's own head under A's
+// address.  (The write listeners of all stores of an instance read the same event bus.)
+func c09GatedAnnounce(r *Run, gi int) error {
+	ctx := context.Background()
+	typ := []string{"eventlog", "keyvalue"}[gi%2]
+	s, err := NewScen(2, typ, &ScenOpts{NoOpen: true})
+	if err != nil {
+		return err
+	}
+	net := s.Env.Net
+	net.AlwaysPeers = true
+	defer func() { net.AlwaysPeers = false }()
+	defer s.Close()
+	X := s.Reps[0]
+	var dbs []iface.Store
+	var addrs []string
+	for j := 0; j < 2; j++ {
+		st, err := X.Orbit.Create(ctx, fmt.Sprintf("gated-%s-%d", s.Label, j), typ, &orbitdb.CreateDBOptions{})
+		if err != nil {
+			return err
+		}
+		dbs = append(dbs, st)
+		addrs = append(addrs, st.Address().String())
+	}
+	time.Sleep(50 * time.Millisecond)
+	write := func(j, k int) (string, error) {
+		switch x := dbs[j].(type) {
+		case iface.EventLogStore:
+			op, err := x.Add(ctx, []byte(fmt.Sprintf("g%d-%d-%d", gi, j, k)))
+			if err != nil {
+				return "", err
+			}
+			return op.GetEntry().GetHash().String(), nil
+		case iface.KeyValueStore:
+			op, err := x.Put(ctx, fmt.Sprintf("k%d", k), []byte(fmt.Sprintf("g%d-%d-%d", gi, j, k)))
+			if err != nil {
+				return "", err
+			}
+			return op.GetEntry().GetHash().String(), nil
+		}
+		return "", fmt.Errorf("store type")
+	}
+	owner := map[string]int{}
+	pos := len(net.LogSnapshot())
+	release := net.GatePeers(addrs[0])
+	h, err := write(0, 0)
+	if err != nil {
+		release()
+		return err
+	}
+	owner[h] = 0
+	parked := false
+	for dl := time.Now().Add(10 * time.Second); time.Now().Before(dl); time.Sleep(time.Millisecond) {
+		if net.PeersWaiting(addrs[0]) > 0 {
+			parked = true
+			break
+		}
+	}
+	nb := 20 + r.Rng.Intn(20)
+	for k := 0; k < nb; k++ {
+		h, err := write(1, k)
+		if err != nil {
+			release()
+			return err
+		}
+		owner[h] = 1
+	}
+	countOn := func(topic string) int {
+		c := 0
+		for _, m := range net.LogSnapshot()[pos:] {
+			if m.Kind == "topic" && m.From == X.Idx && m.Topic == topic {
+				c++
+			}
+		}
+		return c
+	}
+	for dl := time.Now().Add(10 * time.Second); countOn(addrs[1]) < nb && time.Now().Before(dl); time.Sleep(time.Millisecond) {
+	}
+	release()
+	for dl := time.Now().Add(10 * time.Second); countOn(addrs[0]) < 1 && time.Now().Before(dl); time.Sleep(time.Millisecond) {
+	}
+	time.Sleep(30 * time.Millisecond)
+	dbOf := func(a string) int {
+		for j, x := range addrs {
+			if x == a {
+				return j
+			}
+		}
+		return 99
+	}
+	var pubs []string
+	for _, m := range net.LogSnapshot()[pos:] {
+		if m.Kind != "topic" || m.From != X.Idx {
+			continue
+		}
+		var msg iface.MessageExchangeHeads
+		if err := json.Unmarshal(m.Payload, &msg); err != nil {
+			continue
+		}
+		var hs []string
+		for _, hd := range msg.Heads {
+			if hd == nil {
+				continue
+			}
+			o, ok := owner[hd.GetHash().String()]
+			if !ok {
+				o = 98
+			}
+			hs = append(hs, fmt.Sprintf("(%s, %s)", sim.CoqN(s.Canon.Hash.ID(hd.GetHash().String())), sim.CoqNat(o)))
+		}
+		pubs = append(pubs, fmt.Sprintf("(%s, %s, %s)", sim.CoqNat(dbOf(m.Topic)), sim.CoqNat(dbOf(msg.Address)), sim.CoqList(hs)))
+	}
+	r.AddCase(fmt.Sprintf("(CPubs %s)", sim.CoqList(pubs)),
+		map[string]interface{}{"kind": "gated-announce", "sig": "announcement-on-foreign-topic", "type": typ, "parked": parked, "writes_on_other": nb, "published": len(pubs)}, parked && len(pubs) > 1)
+	r.Count(fmt.Sprintf("gated-announce:parked=%v", parked))
 	return nil
 }
 
